@@ -2139,13 +2139,18 @@ Definition lex_class_of (p : prog) : option string :=
   if exists_prog c_commaswizzle p then Some "comma-swizzle"
   else if c_rowbinding p then Some "table-row-reads-as-record"
   else if exists_prog c_mapnot p then Some "map-keys-read-as-record"
-  else if c_tableor p then Some "table-cell-or"
   else if c_arrwild p then Some "array-pattern-item-then-wildcard"
   else if c_guardassign p then Some "fsm-guard-arrow-reads-as-assignment"
+  else if c_tableor p then Some "table-cell-or"      (* last: in this class only the SOURCE is misread *)
   else None.
 
 (* classes in which the real grammar reads the SOURCE text of the case as another tree than p *)
 Definition source_ambiguous (p : prog) : bool := c_rowbinding p || c_tableor p.
+
+(* the real parser read (part of) the source as Mechdown: a paragraph, or a numbered section title (`3.14..x` followed by a
+   line that begins with dashes, e.g. an empty comment `--`, is the subtitle `3.` + text + underline) *)
+Definition read_as_prose (feat : list string) : bool :=
+  mem "Paragraph" feat || mem "section-subtitle" feat || mem "Subtitle" feat.
 
 Definition judge_prog (p : prog) (o : obs8) : sx :=
   let ti := fmt_prog true p in
@@ -2159,7 +2164,7 @@ Definition judge_prog (p : prog) (o : obs8) : sx :=
       (* the case claims that its source text denotes the tree p, a program of code statements only; when the real parser
          read (part of) the text as prose, the claim is void and nothing is compared (the Mechdown reading of a line is
          C10's subject; the real round trip of such a text is still judged by the `diff` stream) *)
-      if mem "Paragraph" (o_feat ob) then v_adv "source-read-as-prose" else
+      if read_as_prose (o_feat ob) then v_adv "source-read-as-prose" else
       if String.eqb (o_text ob) (render tc) then
         (if all_good ob then v_ok "roundtrip"
          else match lex_class_of p with
